@@ -795,7 +795,7 @@ func scenarioWorld(c *harness.Ctx) {
 				ctx, cancel = context.WithTimeout(ctx, 10*time.Minute)
 				defer cancel()
 			}
-			j, _, perr := bot.VerifPingAndList(ctx, "sim.example:25565", mcnet.WrapConn(sl.A))
+			j, _, perr := pingAndList(ctx, "sim.example:25565", mcnet.WrapConn(sl.A))
 			status.set(j, perr)
 		}
 		if statusMode != 0 {
@@ -1187,3 +1187,5 @@ func TestWorker(t *testing.T) { harness.Main(t, prop) }
 var pListen = simrt.NewProbe("server.Listen.accept.loop.on.a.simulated.listener")
 
 var pSharedHandlers = simrt.NewProbe("handlers.common.list.shared.by.several.bots(one.slice)")
+
+var pStatusUnavailable = simrt.NewProbe("status.ping.entry.point.not.available(not.run)")
